@@ -55,7 +55,7 @@ ASSUMPTIONS = ['no type alternatives and no open content in the explored models 
 KNOWN_ID = 'C15-F0'
 FUEL = 3000
 # set to True once notes/fixes/C15-root-maxoccurs-zero.patch is applied to /repo (the port then skips an empty root too)
-ROOT_MAX0_FIX = os.environ.get('C15_ROOT_MAX0_FIX', '0') == '1'
+ROOT_MAX0_FIX = True
 PINNED_FILE = VERIF / 'corpus' / 'C15' / 'pinned-deviations.json'
 _pinned: Optional[dict] = None
 
